@@ -14,7 +14,7 @@ RES = ('a', 'b', 'c', 'zzz')
 SPEC = {
     'level': 'exploration',
     'rule': ('operation sequences over add/reserve/release/merge on 3 resources and up to 4 live '
-             'reservations: every sequence of length <= L over a 53-operation alphabet (incl. reservations that re-use one request dictionary object) from 3 base '
+             'reservations: every sequence of length <= L over a 55-operation alphabet (incl. reservations that re-use one request dictionary object) from 3 base '
              'states (enumerated completely; L=3 quick, 4 thorough), then random sequences of length '
              '6-40 with integer and dyadic amounts; plus scripts on the real event queue in which reservations are made '
              'from inside availability callbacks (also with the dictionary object the manager offers, after another '
@@ -45,6 +45,7 @@ RELEASE_ARGS = [
 ALPHABET = ([op for op in ADD_OPS]
             + [('reserve', r) for r in RESERVE_REQS]
             + [('reserve_shared', [('a', 1)]), ('reserve_shared', [('a', 1), ('b', 1)])]
+            + [('reserve_recycled', [('a', 1)]), ('reserve_recycled', [('a', 2)])]
             + [('release', i, a) for i in (0, 1) for a in RELEASE_ARGS]
             + [('merge', 0, 1), ('merge', 1, 0)])
 
@@ -99,6 +100,7 @@ class PoolRun:
         self.m = Model()
         self.real = []   # real ReservedResources, parallel to m.hold
         self.shared = {}
+        self.recycled = {}
         self.raised_after_res = False
         self.failing_multi = False
         self.ok = True
@@ -145,6 +147,12 @@ class PoolRun:
                               f'{self.shared[key]} by earlier pool operations', k)
                     return 'stop'
                 result = self.rm.reserve_resources(self.shared[key])
+                kind = 'reserve'
+            elif kind == 'reserve_recycled':
+                # the caller keeps ONE dictionary object and fills it in anew for every request
+                self.recycled.clear()
+                self.recycled.update(as_dict(op[1]))
+                result = self.rm.reserve_resources(self.recycled)
                 kind = 'reserve'
             elif kind == 'release':
                 if op[1] >= len(self.real):
@@ -285,7 +293,7 @@ class PoolRun:
         if kind == 'add':
             if m.cap.get(op[1], 0) + op[2] >= 0:
                 return 'resulting capacity is not negative'
-        elif kind in ('reserve', 'reserve_shared'):
+        elif kind in ('reserve', 'reserve_shared', 'reserve_recycled'):
             if all(a >= 0 for r, a in op[1]):
                 return 'no negative entry: the answer is a reservation or None'
         elif kind == 'release':
@@ -321,7 +329,7 @@ def needs_slots(seq, base):
     """Prune sequences that refer to a reservation that cannot exist."""
     n = 1 if base == 'a2b1_held' else 0
     for op in seq:
-        if op[0] in ('reserve', 'reserve_shared'):
+        if op[0] in ('reserve', 'reserve_shared', 'reserve_recycled'):
             n += 1      # upper bound (may fail), exact skip happens at run time
         elif op[0] == 'release' and op[1] >= n:
             return False
@@ -354,7 +362,8 @@ def random_sequence(rng):
                 elif y < 0.14:
                     a = -a
                 req.append((r, a))
-            seq.append(('reserve_shared' if rng.random() < 0.25 else 'reserve', req))
+            y = rng.random()
+            seq.append(('reserve_shared' if y < 0.2 else 'reserve_recycled' if y < 0.4 else 'reserve', req))
             nres += 1
         elif x < 0.85:
             i = rng.randrange(min(nres, 4))
@@ -434,7 +443,7 @@ def replay(sh, v):
     fixed = []
     for o in case['ops']:
         o = list(o)
-        if o[0] in ('reserve', 'reserve_shared'):
+        if o[0] in ('reserve', 'reserve_shared', 'reserve_recycled'):
             fixed.append((o[0], [tuple(p) for p in o[1]]))
         elif o[0] == 'release':
             fixed.append(('release', o[1], None if o[2] is None else [tuple(p) for p in o[2]]))
